@@ -47,45 +47,100 @@ def _attr_chain(n):
     raise Untranslatable(ast.dump(n)[:80])
 
 
-def expr(n, attr):
-    if isinstance(n, ast.Attribute):
-        ch = _attr_chain(n)
-        if ch == ["self", "optimizer", attr]:
-            return "live"
-        if ch == ["self", "gamma"]:
-            return "gamma"
-        if ch == ["self", "last_epoch"]:
-            return "lastEpoch"
-        if len(ch) == 2 and ch[0] == "self" and ch[1].startswith("base_"):
-            return "base"
-        if ch == ["self", "step_size"]:
-            return "(stepSize : Int)"
-        raise Untranslatable("attribute " + ".".join(ch))
-    if isinstance(n, ast.BinOp) and isinstance(n.op, ast.Mult):
-        return f"({expr(n.left, attr)} * {expr(n.right, attr)})"
-    if isinstance(n, ast.BinOp) and isinstance(n.op, ast.Mod):
-        return f"({expr(n.left, attr)} % {expr(n.right, attr)})"
-    if isinstance(n, ast.Call) and isinstance(n.func, ast.Attribute) and _attr_chain(n.func)[0] == "self" and len(n.args) == 1 and not n.keywords:
-        if _attr_chain(n.args[0]) == ["self", "last_epoch"]:
-            return "(f lastEpoch)"
-    if isinstance(n, ast.Constant) and isinstance(n.value, int):
-        return str(n.value)
-    raise Untranslatable(ast.dump(n)[:120])
+class Getter:
+    """symbolic evaluation of a getter (and of the argument-less helper methods it calls): locals are substituted,
+    `if` / conditional expressions become Lean if-then-else, helper methods are inlined"""
 
+    def __init__(self, attr, methods, depth=0):
+        self.attr, self.methods, self.depth = attr, methods, depth
+        self.env = {}
 
-def cond(n, attr):
-    if isinstance(n, ast.BoolOp):
-        op = " ∨ " if isinstance(n.op, ast.Or) else " ∧ "
-        return "(" + op.join(cond(v, attr) for v in n.values) + ")"
-    if isinstance(n, ast.UnaryOp) and isinstance(n.op, ast.Not):
-        return f"¬ {cond(n.operand, attr)}"
-    if isinstance(n, ast.Compare) and len(n.ops) == 1:
-        a, b = expr(n.left, attr), expr(n.comparators[0], attr)
-        if isinstance(n.ops[0], ast.Eq):
-            return f"{a} = {b}"
-        if isinstance(n.ops[0], ast.NotEq):
-            return f"{a} ≠ {b}"
-    raise Untranslatable(ast.dump(n)[:120])
+    def helper(self, n, kind):
+        if (isinstance(n, ast.Call) and isinstance(n.func, ast.Attribute) and isinstance(n.func.value, ast.Name) and n.func.value.id == "self"
+                and not n.args and not n.keywords and n.func.attr in self.methods and n.func.attr not in ("step",)):
+            if self.depth > 3:
+                raise Untranslatable("helper nesting")
+            return Getter(self.attr, self.methods, self.depth + 1).block(strip_doc(self.methods[n.func.attr].body), kind)
+        return None
+
+    def value(self, n):
+        if isinstance(n, ast.Name) and n.id in self.env:
+            return self.env[n.id][0]
+        if isinstance(n, ast.Attribute):
+            ch = _attr_chain(n)
+            if ch == ["self", "optimizer", self.attr]:
+                return "live"
+            if ch == ["self", "gamma"]:
+                return "gamma"
+            if ch == ["self", "last_epoch"]:
+                return "lastEpoch"
+            if len(ch) == 2 and ch[0] == "self" and ch[1].startswith("base_"):
+                return "base"
+            if ch == ["self", "step_size"]:
+                return "(stepSize : Int)"
+            raise Untranslatable("attribute " + ".".join(ch))
+        if isinstance(n, ast.BinOp) and isinstance(n.op, ast.Mult):
+            return f"({self.value(n.left)} * {self.value(n.right)})"
+        if isinstance(n, ast.BinOp) and isinstance(n.op, ast.Mod):
+            return f"({self.value(n.left)} % {self.value(n.right)})"
+        if isinstance(n, ast.IfExp):
+            return f"(if {self.cond(n.test)} then {self.value(n.body)} else {self.value(n.orelse)})"
+        h = self.helper(n, "value")
+        if h is not None:
+            return f"({h})"
+        if isinstance(n, ast.Call) and isinstance(n.func, ast.Attribute) and _attr_chain(n.func)[0] == "self" and len(n.args) == 1 and not n.keywords:
+            if self.value(n.args[0]) == "lastEpoch":
+                return "(f lastEpoch)"
+        if isinstance(n, ast.Constant) and isinstance(n.value, int) and not isinstance(n.value, bool):
+            return str(n.value)
+        raise Untranslatable(ast.dump(n)[:120])
+
+    def cond(self, n):
+        if isinstance(n, ast.Name) and n.id in self.env and self.env[n.id][1] == "cond":
+            return self.env[n.id][0]
+        if isinstance(n, ast.Constant) and isinstance(n.value, bool):
+            return "True" if n.value else "False"
+        if isinstance(n, ast.BoolOp):
+            op = " ∨ " if isinstance(n.op, ast.Or) else " ∧ "
+            return "(" + op.join(self.cond(v) for v in n.values) + ")"
+        if isinstance(n, ast.UnaryOp) and isinstance(n.op, ast.Not):
+            return f"(¬ {self.cond(n.operand)})"
+        if isinstance(n, ast.IfExp):
+            return f"(if {self.cond(n.test)} then {self.cond(n.body)} else {self.cond(n.orelse)})"
+        if isinstance(n, ast.Compare) and len(n.ops) == 1:
+            a, b = self.value(n.left), self.value(n.comparators[0])
+            if isinstance(n.ops[0], ast.Eq):
+                return f"({a} = {b})"
+            if isinstance(n.ops[0], ast.NotEq):
+                return f"({a} ≠ {b})"
+        h = self.helper(n, "cond")
+        if h is not None:
+            return f"({h})"
+        raise Untranslatable(ast.dump(n)[:120])
+
+    def any(self, n, kind):
+        return self.value(n) if kind == "value" else self.cond(n)
+
+    def block(self, stmts, kind):
+        if not stmts:
+            raise Untranslatable("getter falls off its end")
+        s, rest = stmts[0], stmts[1:]
+        if isinstance(s, ast.Return):
+            return self.any(s.value, kind)
+        if isinstance(s, ast.Assign) and len(s.targets) == 1 and isinstance(s.targets[0], ast.Name):
+            try:
+                self.env[s.targets[0].id] = (self.value(s.value), "value")
+            except Untranslatable:
+                self.env[s.targets[0].id] = (self.cond(s.value), "cond")
+            return self.block(rest, kind)
+        if isinstance(s, ast.If):
+            saved = dict(self.env)
+            then = self.block(strip_doc(s.body) + rest, kind)
+            self.env = dict(saved)
+            els = self.block(strip_doc(s.orelse) + rest, kind)
+            self.env = saved
+            return f"if {self.cond(s.test)} then {then} else {els}"
+        raise Untranslatable("getter statement: " + ast.dump(s)[:140])
 
 
 def strip_doc(body):
@@ -93,18 +148,8 @@ def strip_doc(body):
             and not isinstance(s, ast.Pass)]
 
 
-def getter(fn, attr):
-    body = strip_doc(fn.body)
-    # comments vanish in the AST; `if c: return a` followed by `return b` is the same as if/else
-    if len(body) == 1 and isinstance(body[0], ast.Return):
-        return expr(body[0].value, attr)
-    if isinstance(body[0], ast.If):
-        i = body[0]
-        then = strip_doc(i.body)
-        els = strip_doc(i.orelse) or body[1:]
-        if len(then) == 1 and isinstance(then[0], ast.Return) and len(els) == 1 and isinstance(els[0], ast.Return):
-            return f"if {cond(i.test, attr)} then {expr(then[0].value, attr)} else {expr(els[0].value, attr)}"
-    raise Untranslatable("getter body: " + ast.dump(fn)[:160])
+def getter(fn, attr, methods=None):
+    return Getter(attr, methods or {}).block(strip_doc(fn.body), "value")
 
 
 def step_fn(fn, attr, getname):
@@ -215,7 +260,7 @@ def translate():
                     raise Untranslatable(f"{cname}.{getname} not found")
                 if "step" in fns:
                     raise Untranslatable(f"{cname} overrides step()")
-                body = getter(fns[getname], attr)
+                body = getter(fns[getname], attr, fns)
                 out.append(f"/-- `{cname}.{getname}` -/")
                 K = kind.capitalize()
                 out.append(f"def {tag}Get{K} {{R : Type}} [Mul R] (live gamma base : R) (stepSize : Nat) (f : Int → R) (lastEpoch : Int) : R :=")
